@@ -12,6 +12,7 @@ import (
 	"fmt"
 	"io"
 	"net"
+	"os"
 	"runtime"
 	"strconv"
 	"sync"
@@ -22,6 +23,10 @@ import (
 )
 
 const guard = 5 * time.Second
+
+// grace: how long a call that is predicted to park is given before it is reported as parked
+// (VERIF_C39_GRACE_US overrides it; correctness does not depend on it, see write()).
+var grace = 3 * time.Millisecond
 
 type seq struct {
 	r   *hlib.Run
@@ -90,7 +95,7 @@ func (s *seq) emit(lhs, res string, quiescent bool) {
 func (s *seq) await(ch chan string, predictedPark bool) (string, bool) {
 	d := guard
 	if predictedPark {
-		d = 3 * time.Millisecond
+		d = grace
 	}
 	select {
 	case res := <-ch:
@@ -187,6 +192,29 @@ func (s *seq) write(b []byte) {
 		s.abort = true
 	}
 	s.q += copied
+	if !done && res == "block" {
+		// "block" was decided by the grace period only: the goroutine may not even have started. A parked writer
+		// has filled the pipe, so wait until the pipe is full (or the call returns) before the next operation.
+		deadline := time.Now().Add(guard)
+	wait:
+		for {
+			select {
+			case res = <-ch:
+				done = true
+				break wait
+			default:
+			}
+			if _, _, _, full, _, _, _ := s.v.State(); full {
+				break
+			}
+			if time.Now().After(deadline) {
+				res = "hang"
+				s.hangs++
+				break
+			}
+			runtime.Gosched()
+		}
+	}
 	if !done && res == "block" {
 		s.wpend, s.wrest = ch, len(b)-copied
 	}
@@ -609,6 +637,9 @@ var _ net.Conn
 var _ = io.EOF
 
 func main() {
+	if us, err := strconv.Atoi(os.Getenv("VERIF_C39_GRACE_US")); err == nil && us > 0 {
+		grace = time.Duration(us) * time.Microsecond
+	}
 	r := hlib.Start()
 	r.Rule = "sequential case = capacity + op sequence (write/read with sizes around 0, cap, cap+k; close, closeWrite, deadline timers; parked calls woken by the next op), non-trivial = distinct (cap, ops, results); systematic = all (cap, wrap offset, fill, write len, read len); stream = concurrent reader/writer goroutines over BufferedPipe with seeded yields and close at random points"
 	rng := hlib.NewRng(r.Seed)
